@@ -3,6 +3,7 @@ CONSTANTS
   Jobs <- JobsThorough
   Macros <- NoSyms
   Paths <- NoSyms
+  StripLastByteBug = FALSE
   EmitMode = "all"
 INVARIANTS Sane EmitInv
 CHECK_DEADLOCK FALSE
